@@ -429,7 +429,8 @@ impl<'a> Gen<'a> {
                 0 => X::Cust(if k == K::T { "CURRENT_USER".into() } else { "PI".into() }),
                 1 => X::Kw(*self.rng.pick(&["CURRENT_TIMESTAMP", "CURRENT_DATE", "CURRENT_TIME"])),
                 2 if k == K::T => X::Func("MD5", vec![self.scalar(scope, K::T, depth - 1)]),
-                3 if k != K::T => X::Func("ROUND", vec![self.scalar(scope, K::R, depth - 1), self.int_val()]),
+                3 if k != K::T && self.rng.coin() => X::Func("ROUND", vec![self.scalar(scope, K::R, depth - 1), self.int_val()]),
+                3 if k != K::T => X::Func("ROUND", vec![self.scalar(scope, K::R, depth - 1)]),
                 4 if k != K::T => X::Func("RANDOM", vec![]),
                 _ => X::Kw("LOCALTIME"),
             }),
